@@ -4,7 +4,8 @@ import Bpmn.Model.Engine
 
 The property (DESIGN §8 C01/C05, §12.1) allows an inclusive join to release anywhere between
 
-* `early` — no live token outside the gateway can still reach it (`Cfg.ideal`), and
+* `early` — no live token outside the gateway can still reach it, or the activating token descends from no inclusive fork
+  activation at all (`Cfg.ideal`), and
 * `late && early` — additionally every live token of the fork activation has arrived (`Cfg.idealLate`); this late
   bound exists only for gateways with two or more incoming flows (`Engine.lateAt`): a gateway with a single incoming
   flow is a pure fork, has no join clause and must forward at once, so for it the interval collapses to `early`.
@@ -129,10 +130,12 @@ abbrev Join := Proc → St → Node → IgSt → List Tok → Bool
 /-- the decision procedure of a policy: it never touches the state -/
 def Join.ready (J : Join) : Ready := fun p s n g work => (J p s n g work, s)
 
-/-- earliest allowed release point of gateway `n`: no live token can still arrive on an EMPTY incoming flow (reachability);
-a gateway with at most one incoming flow joins nothing — the flow that holds the arriving token is its only one -/
+/-- earliest allowed release point of gateway `n`: no live token can still reach it (reachability); a token that descends
+from no inclusive fork activation joins nothing (it has no "activated branches") -/
 def earlyAt (p : Proc) (s : St) (n : Node) (g : IgSt) (work : List Tok) : Bool :=
-  n.ins.length ≤ 1 || !upstreamLive p s n.id work g.arrived
+  (match g.activated with
+   | some a => (s.tagsOf a).isEmpty
+   | none => false) || !upstreamLive p s n.id work g.arrived
 
 /-- **The interval.** A policy is admissible when it never lets an idle gateway synchronise, never releases before
 the earliest allowed point, and always releases at the latest allowed one. -/
